@@ -627,4 +627,120 @@ theorem bidInv_step : StepInv (FramerEnv (τ := τ)) BidInv where
   advance := fun s hi => ⟨hi.desire, hi.trace, hi.written⟩
   halfAdvance := fun s hi => ⟨hi.desire, hi.trace, hi.written⟩
 
+theorem addReady_world (s : St τ (World τ)) (i : Nat) :
+    (addReadyTask FramerEnv s i).world =
+      setStatus i .stopped (writeDesire i (if FramerEnv.active s.world i then Control.start else Control.stop) s.world) ∧
+    ∃ e, (addReadyTask FramerEnv s i).ready = s.ready ++ [e] ∧ e.id = i := by
+  refine ⟨rfl, ⟨_, rfl, rfl⟩⟩
+
+theorem bidInv_addReady (s : St τ (World τ)) (i : Nat) (hi : BidInv s) : BidInv (addReadyTask FramerEnv s i) := by
+  obtain ⟨hw, e, hr, he⟩ := addReady_world s i
+  generalize (if FramerEnv.active s.world i then Control.start else Control.stop) = c at hw
+  have htr : (addReadyTask FramerEnv s i).world.trace = s.world.trace ++ [.write i c] := by rw [hw]; rfl
+  refine ⟨?_, ?_, ?_⟩
+  · rw [hw]
+    exact (Tx.setStatus (Pn := good) i _ _).desire ((Fx.writeDesire good_ok i i c s.world).desire hi.desire)
+  · rw [htr]; exact hi.trace.append (by simp [Obs.isRecv])
+  · intro x hx
+    rw [htr]
+    rw [hr] at hx
+    rcases List.mem_append.mp hx with h | h
+    · exact lastWrite_append_isSome _ _ _ (hi.written x h)
+    · simp at h; subst h
+      rw [lastWrite_snoc, he]; simp
+
+/-! ### slaves (and every framer that is not scheduled) change status only in fiats -/
+
+structure SlaveInv (D : List Nat) (st0 : Nat → Status) (s : St τ (World τ)) : Prop where
+  ready : ∀ e ∈ s.ready, e.id ∈ D
+  status : ∀ k, k ∉ D → stat s.world k = applyFiats s.world.trace k (st0 k)
+  norecv : ∀ ph i c, Obs.recv ph i c ∈ s.world.trace → i ∈ D
+  fiats : ∀ o ∈ s.world.trace, o.fiatTrue
+
+theorem applyFiats_recv_cons (ph : Phase) (i : Nat) (c : Control) (n : List (Obs τ)) (k : Nat) (s0 : Status) :
+    applyFiats (.recv ph i c :: n) k s0 = applyFiats n k s0 := by
+  simp [applyFiats]
+
+theorem slaveInv_send {D : List Nat} {st0 : Nat → Status} {w : World τ} (ph : Phase) (i : Nat) (c : Control)
+    (stamp : τ) (hD : i ∈ D)
+    (hst : ∀ k, k ∉ D → stat w k = applyFiats w.trace k (st0 k))
+    (hnr : ∀ ph i c, Obs.recv ph i c ∈ w.trace → i ∈ D) (hf : ∀ o ∈ w.trace, o.fiatTrue) :
+    let w' := ((FramerEnv (τ := τ)).send ph i c stamp w).2
+    (∀ k, k ∉ D → stat w' k = applyFiats w'.trace k (st0 k)) ∧
+    (∀ ph i c, Obs.recv ph i c ∈ w'.trace → i ∈ D) ∧ (∀ o ∈ w'.trace, o.fiatTrue) := by
+  obtain ⟨n, ht, hp, ho, _⟩ := send_tx ph i c stamp w
+  simp only []
+  refine ⟨?_, ?_, ?_⟩
+  · intro k hk
+    have hki : k ≠ i := fun h => hk (h ▸ hD)
+    rw [ho k hki, ht, applyFiats_append, applyFiats_recv_cons, hst k hk]
+  · intro ph' i' c' hmem
+    rw [ht] at hmem
+    rcases List.mem_append.mp hmem with h | h
+    · exact hnr _ _ _ h
+    · rcases List.mem_cons.mp h with h | h
+      · cases h; exact hD
+      · have := (hp _ h).1
+        simp [Obs.isRecv] at this
+  · intro o hmem
+    rw [ht] at hmem
+    rcases List.mem_append.mp hmem with h | h
+    · exact hf o h
+    · rcases List.mem_cons.mp h with h | h
+      · subst h; trivial
+      · exact (hp o h).2
+
+theorem slaveInv_step (D : List Nat) (st0 : Nat → Status) : StepInv (FramerEnv (τ := τ)) (SlaveInv D st0) where
+  after := by
+    intro s e rest hi hr
+    have hw := after_world FramerEnv s e rest
+    have hrd := after_ready FramerEnv s e rest
+    have heD : e.id ∈ D := hi.ready e (by rw [hr]; simp)
+    have hready : ∀ x ∈ (after FramerEnv s e rest).ready, x.id ∈ D := by
+      intro x hx
+      rw [hrd] at hx
+      rcases List.mem_append.mp hx with h | h
+      · exact hi.ready x (by rw [hr]; exact List.mem_cons_of_mem _ h)
+      · rw [ids_kept FramerEnv s e x h]; exact heD
+    by_cases hd : isDue s e
+    · simp only [hd, if_true] at hw
+      obtain ⟨h1, h2, h3⟩ := slaveInv_send .loop e.id (FramerEnv.desire s.world e.id) s.storeStamp heD
+        hi.status hi.norecv hi.fiats
+      exact ⟨hready, by rw [hw]; exact h1, by rw [hw]; exact h2, by rw [hw]; exact h3⟩
+    · simp only [hd] at hw
+      exact ⟨hready, by rw [hw]; exact hi.status, by rw [hw]; exact hi.norecv, by rw [hw]; exact hi.fiats⟩
+  afterFinal := by
+    intro s e rest hi hr
+    have heD : e.id ∈ D := hi.ready e (by rw [hr]; simp)
+    obtain ⟨h1, h2, h3⟩ := slaveInv_send .final e.id .abort s.storeStamp heD hi.status hi.norecv hi.fiats
+    exact ⟨fun x hx => hi.ready x (by rw [hr]; exact List.mem_cons_of_mem _ hx), h1, h2, h3⟩
+  advance := fun s hi => ⟨hi.ready, hi.status, hi.norecv, hi.fiats⟩
+  halfAdvance := fun s hi => ⟨hi.ready, hi.status, hi.norecv, hi.fiats⟩
+
+theorem slaveInv_addReady (D : List Nat) (st0 : Nat → Status) (s : St τ (World τ)) (i : Nat) (hD : i ∈ D)
+    (hi : SlaveInv D st0 s) : SlaveInv D st0 (addReadyTask FramerEnv s i) := by
+  obtain ⟨hw, e, hr, he⟩ := addReady_world s i
+  generalize (if FramerEnv.active s.world i then Control.start else Control.stop) = c at hw
+  have htr : (addReadyTask FramerEnv s i).world.trace = s.world.trace ++ [.write i c] := by rw [hw]; rfl
+  refine ⟨?_, ?_, ?_, ?_⟩
+  · intro x hx
+    rw [hr] at hx
+    rcases List.mem_append.mp hx with h | h
+    · exact hi.ready x h
+    · simp at h; subst h; rw [he]; exact hD
+  · intro k hk
+    have hki : k ≠ i := fun h => hk (h ▸ hD)
+    rw [htr, applyFiats_append, ← hi.status k hk, hw]
+    simp [applyFiats, stat, Ioflo.Bids.setStatus, Ioflo.Bids.writeDesire, World.modF, World.log, hki]
+  · intro ph j c' hmem
+    rw [htr] at hmem
+    rcases List.mem_append.mp hmem with h | h
+    · exact hi.norecv _ _ _ h
+    · simp at h
+  · intro o hmem
+    rw [htr] at hmem
+    rcases List.mem_append.mp hmem with h | h
+    · exact hi.fiats o h
+    · simp at h; subst h; trivial
+
 end Ioflo.Bids
